@@ -201,10 +201,34 @@ fn compose(r: &mut Rng, info: &RecvInfo, mistakes: usize) -> (Vec<String>, usize
             items.push((*it).to_string());
         }
     }
+    // names the receiver does not know are ignored where unknown fields are allowed: multi-segment
+    // paths whose last segment is a known name, and plain strangers
+    if info.allow_unknown && !info.has_flatten {
+        for _ in 0..r.below(3) {
+            let it = if !info.fields.is_empty() && r.chance(2, 3) {
+                let f = r.pick(&info.fields);
+                let v = if f.valid.is_empty() { " = 1" } else { *r.pick(f.valid) };
+                format!("{}::{}{}", r.pick(&["ns", "other", "compat"]), f.name, v)
+            } else {
+                "stranger = 1".to_string()
+            };
+            items.push(it);
+        }
+    }
     r.shuffle(&mut items);
     let mut injected = 0;
     for _ in 0..mistakes {
-        match r.below(6) {
+        match r.below(7) {
+            6 => {
+                // a multi-segment name whose last segment is a known field
+                if !info.fields.is_empty() {
+                    let f = r.pick(&info.fields);
+                    let v = if f.valid.is_empty() { " = 1" } else { *r.pick(f.valid) };
+                    let pos = r.below(items.len() + 1);
+                    items.insert(pos, format!("{}{}{}", r.pick(&["ns::", "other::", "::"]), f.name, v));
+                    injected += 1;
+                }
+            }
             0 => {
                 // unknown name near a valid / arbitrary one
                 let base = if info.fields.is_empty() || r.chance(1, 4) {
@@ -381,6 +405,10 @@ pub fn run_enums(seed: u64, n: usize, out: &mut Out) {
                 forms.push(format!("x({}())", c));
                 forms.push(format!("x({}(zzz = 1))", c));
                 forms.push(format!("x({}, {})", c, c));
+                forms.push(format!("x(ns::{})", c));
+                forms.push(format!("x(other::{} = 1)", c));
+                forms.push(format!("x(::{})", c));
+                forms.push(format!("x(fx::{}(zzz = 1))", c));
             }
         }
         let mut r = base.fork(k as u64);
